@@ -116,13 +116,21 @@ theorem refresh_zero_keeps_timer_armed :
 /-! ### no pong ⇒ NoPong at the pong deadline; pong in time ⇒ survives -/
 
 /-- a ping sets the pong deadline `now + PongTimeout`, the next ping, and remembers the ping time -/
-theorem ping_sets_pong_deadline (c : Cfg) (s : St) (now : Nat) (hT : 0 < c.pongTimeout) :
+theorem ping_sets_pong_deadline (c : Cfg) (s : St) (now : Nat) (hT : 0 < c.pongTimeout) (hbi : c.uni = false) :
     let s' := (sendPing c s now).1
     s'.nextPong = now + c.pongTimeout ∧ s'.nextPing = now + c.pingInterval ∧ s'.lastPing = now ∧
     s'.ponged = false ∧ s'.lastSeen = s.lastSeen ∧ (sendPing c s now).2 = [.ping] := by
   unfold sendPing schedule
-  simp only [hT, if_true]
+  simp only [hT, hbi, and_self, if_true]
   split <;> (try split) <;> simp
+
+/-- a unidirectional transport cannot answer pings: a ping sets NO pong deadline for it (so, with
+`timer_is_min`, the pong check — the only source of DisconnectNoPong — is never armed by a ping). -/
+theorem uni_ping_sets_no_pong_deadline (c : Cfg) (s : St) (now : Nat) (hu : c.uni = true) :
+    (sendPing c s now).1.nextPong = s.nextPong ∧ (sendPing c s now).2 = [.ping] := by
+  unfold sendPing
+  simp only [hu, Bool.true_eq_false, and_false, if_false]
+  exact ⟨(schedule_keeps _).2.2.2.2.1, trivial⟩
 
 /-- only an accepted pong command moves `lastSeen`; every other operation that is not a timer firing
 leaves "no pong since the last ping" (`lastSeen < lastPing`) untouched (or closes the connection) -/
